@@ -202,10 +202,7 @@ func (c *ATConn) createNewTxOnExecIfNeed(ctx context.Context, f func() (types.Ex
 
 	if tx != nil {
 		if err = tx.Commit(); err != nil {
-			// registration, undo-log flush or the local commit failed: end the local transaction
-			if rollbackErr := tx.Rollback(); rollbackErr != nil {
-				log.Errorf("conn at rollback error:%v", rollbackErr)
-			}
+			// registration, undo-log flush or the local commit failed: Commit has ended the local transaction
 			return nil, err
 		}
 	}
